@@ -101,7 +101,24 @@ def proof_gate(prefixes):
         open(os.path.join(CACHE, 'properties.log'), 'w').write(out)
         if r.returncode:
             failures.append('Properties.v does not compile: ' + out[-400:])
-        blocks = re.findall(r'^(Closed under the global context|Axioms:\n(?:.+\n?)+?)(?=\n\S|\Z)', out, re.M)
+        blocks, cur = [], None
+        for line in out.split('\n'):
+            if line.startswith('Closed under the global context'):
+                if cur is not None:
+                    blocks.append(cur)
+                    cur = None
+                blocks.append('Closed under the global context')
+            elif line.startswith('Axioms:'):
+                if cur is not None:
+                    blocks.append(cur)
+                cur = 'Axioms:\n'
+            elif cur is not None:
+                if line.strip() == '' or (not line.startswith(' ') and ':' not in line):
+                    blocks.append(cur); cur = None
+                else:
+                    cur += line + '\n'
+        if cur is not None:
+            blocks.append(cur)
         # sequential association: one Print Assumptions per theorem, in order
         printed = re.findall(r'^Print Assumptions (\w+)\.', strip_coq_comments(open(props_v).read()), re.M)
         if len(printed) != len(blocks):
